@@ -104,8 +104,10 @@ Open Scope Z_scope.
     },
     "C01": {
         "title": "Homogeneous media: traveltime equals distance over velocity - the exact-arithmetic mechanisms (model: gen/Fteik2d.v, gen/Fteik3d.v).  The global tolerances are examined on the implementation by the oracle.",
-        "header": HDR_R.format(imports="From FT.proofs Require Import Sweep2dProofs OperatorsR.\nFrom FT.proofs Require Operators3R."),
+        "header": HDR_R.format(imports="From FT.proofs Require Import Sweep2dProofs OperatorsR SweepDargs.\nFrom FT.proofs Require Operators3R."),
         "theorems": [
+            ("sweep2d_constants", "SweepDargs.sweep2d_through_dargs2", "a 2D pass hands every node update the tuple (dz, dx, 1/dz, 1/dx, 1/dz^2, 1/dx^2) and depends on the spacings only through it (every numeric instance)"),
+            ("sweep3d_constants", "SweepDargs.sweep3d_through_dargs3", "a 3D pass hands every node update (dz, dx, dy, 1/dz^2, 1/dx^2, 1/dy^2, their pairwise products in the order zx, zy, xy, and their sum) - the constants the plane-wave exactness theorems below are stated for"),
             ("t_ana_is_distance_times_slowness", "OperatorsR.t_ana_exact", "the analytic seed: slowness x Euclidean distance from node (i,j) to the source at (zsa,xsa) in grid units, with per-axis spacings"),
             ("t_anad_is_its_gradient", "OperatorsR.t_anad_is_gradient", "its derivatives are the analytic gradient"),
             ("spherical_operator_exact", "OperatorsR.delta_spherical_exact", "the spherical operator returns the analytic time when its neighbours carry the analytic time (zero perturbations) and the sweep looks away from the source"),
@@ -188,6 +190,16 @@ Open Scope Z_scope.
             ("vinterp2d_translate", "TranslateR.vinterp2d_translate", "traveltime evaluation (source translated too): every case - outside, source cell, zero corner, far faces, generic"),
             ("vinterp3d_translate", "TranslateR.vinterp3d_translate", "3D"),
             ("omitting_origin_is_zero_origin", "TranslateR.shift_axis_0", "translating by zero changes nothing"),
+        ],
+        "examples": [],
+    },
+    "C02": {
+        "title": "Heterogeneous media: the grid-line bound in layered media and the registration of cells to nodes (exact arithmetic over the generated sweep). First-order accuracy and refinement are examined by the oracle against exact solutions.",
+        "header": HDR_R.format(imports="From FT.proofs Require Import Sweep2dProofs LayeredR."),
+        "theorems": [
+            ("column_upper_bound_down", "LayeredR.column_upper_bound_down", "converged solution: going down a column from any row, the time grows by at most dz * (smallest slowness of the cells adjoining each edge crossed)"),
+            ("column_upper_bound_up", "LayeredR.column_upper_bound_up", "and going up"),
+            ("layered_grid_line_upper", "LayeredR.layered_grid_line_upper", "layered model, node source: the time n rows below the source is at most the cumulative sum of slowness x spacing over the cell rows between them - cell row c lies between node rows c and c+1"),
         ],
         "examples": [],
     },
